@@ -91,6 +91,24 @@ def add3(a: int, b: int = 10, *, c: int = 100) -> int:
     return a + b * 2 + c * 3
 
 
+def scale(x: float, k: float = 2.0) -> float:
+    return x * k + 0.5
+
+
+def idi64(x: i64) -> i64:
+    return x
+
+
+def optid(x: Optional[int]) -> Optional[int]:
+    if x is None:
+        return None
+    return x + 1
+
+
+def tupid(t: tuple[int, str]) -> tuple[int, str]:
+    return (t[0] + 1, t[1])
+
+
 def sum_all(*xs: int) -> int:
     t = 0
     for x in xs:
@@ -98,7 +116,7 @@ def sum_all(*xs: int) -> int:
     return t
 '''
 
-FROM_A = "from {a} import Ctx, MyErr, Pt, Pt3, add3, sum_all\n"
+FROM_A = "from {a} import Ctx, MyErr, Pt, Pt3, add3, idi64, optid, scale, sum_all, tupid\n"
 BASE_CLASSES = {"Pt": ["x", "y"], "Pt3": ["x", "y", "name"], "Ctx": ["name", "suppress"], "H": ["v", "seq"], "IC": ["v", "items"]}
 
 
